@@ -85,6 +85,8 @@ class TimeShiftMonitor:
             if k in m and m[k] != mo.get(k):
                 if k == "dtype" and out is z:
                     continue
+                if k == "dtype" and np.dtype(m[k]).kind in "iub" and np.dtype(mo.get(k)).kind == "f":
+                    continue        # integer samples delayed by the shift theorem are real numbers
                 ctx.violation(o, f"time_shift changed {k}: {m[k]!r} -> {mo.get(k)!r}", None, dict(feats, what="meta_" + k))
         if out is z:
             if np.any(np.abs(s_b) > 1e-6):
@@ -94,6 +96,9 @@ class TimeShiftMonitor:
             return
         if m["dask"] != mo["dask"]:
             ctx.violation(o, "time_shift changed the data container", None, dict(feats, what="container"))
+        if np.dtype(m["dtype"]).kind in "iub" and np.dtype(mo["dtype"]).kind in "iub" and np.any(np.abs(s_b - np.round(s_b)) > 1e-6):
+            ctx.violation(o, f"fractional shift of {m['dtype']} data returned {mo['dtype']} samples: the delayed values were rounded back to integers",
+                          None, dict(feats, what="int_truncation"))
         if N == 0:
             return
         x = gen.np_data(z)
@@ -283,6 +288,9 @@ def wl_shift(ctx, idx, rng):
             clsname = "DualPolarizationSignal" if (len(sshape) > 1 and sshape[1] == 2) else "BasebandSignal"
         else:
             clsname = gen.pick(rng, ["RadioSignal", "IntensitySignal"])
+    if clsname == "Signal" and nd.kind == "f" and rng.random() < 0.25:
+        dtype = gen.pick(rng, [np.int16, np.int8, np.int32, np.uint8])      # raw integer counts
+        nd = np.dtype(dtype)
     rate = gen.rand_rate(rng, lo=0, hi=8) if kind != "quantity" else gen.rand_rate(rng, lo=0, hi=9.6)
     whole = None
     if kind == "quantity_whole":
@@ -296,7 +304,7 @@ def wl_shift(ctx, idx, rng):
     # plant tones / impulses so wrap-around is visible in every element
     if N >= 3 and rng.random() < 0.5:
         x[0] += 5
-        x[-1] -= 5
+        x[-1] += 7
     sig, desc = gen.make_signal(rng, clsname, N, data=x, rate=rate, dask=use_dask, mem="rand")
     s = make_shift(rng, N, sshape, kind if whole is None else "int", shape_kind)
     sq = s
